@@ -305,11 +305,13 @@ def observe(C, ns, m, history, absent_keys):
             C.bad(f"c11:getitem:{cl}:{sym}", f"ns[{key!r}] gives {'KeyError' if got is MISSING else repr(got)}, reference {'KeyError' if exp is MISSING else repr(exp)}", case(f"print(ns[{key!r}])"))
         else:
             C.evals += 1
+        readable = got is not MISSING if exc in (None, "KeyError") else None
         # get
         try:
             got, exc = ns.get(key, SENT), None
         except Exception as ex:  # noqa
             got, exc = None, type(ex).__name__
+        gettable = None if exc else (got is not SENT)
         want = SENT if exp is MISSING else exp
         if exc or not eqv(got, want):
             cl = cls_str(classify(m, list(p)))
@@ -324,6 +326,16 @@ def observe(C, ns, m, history, absent_keys):
         if exc or got is not (exp is not MISSING):
             cl = cls_str(classify(m, list(p)))
             C.bad(f"c11:contains:{cl}:{'raises:' + exc if exc else 'result'}", f"{key!r} in ns gives {exc or got}, reference {exp is not MISSING}", case(f"print({key!r} in ns)"))
+        else:
+            C.evals += 1
+        # the three dotted-key readers answer for *one* dictionary: whatever it holds at the key (also where that differs from the reference,
+        # i.e. in the known-finding area below plain dict values), membership, ns[key] and get must agree with each other
+        answers = {"ns[key]": readable, "get": gettable, "in": None if exc else got}
+        given = {k: v for k, v in answers.items() if v is not None}
+        if len(set(given.values())) > 1:
+            cl = classify(m, list(p))[2]
+            C.bad(f"c11:readers-disagree:{cl}:" + ",".join(f"{k}={'present' if v else 'absent'}" for k, v in sorted(given.items())),
+                  f"for {key!r}: " + ", ".join(f"{k} says {'present' if v else 'absent'}" for k, v in given.items()), case(f"print({key!r} in ns, ns.get({key!r}, 'absent'))"))
         else:
             C.evals += 1
     # ---- items / keys / values
